@@ -66,6 +66,28 @@ def o_save_load(inp):
                 or any(m[TY] == ON and not (1 <= (m[VEL] or 0) <= 127) for m in r):
             return [("~skip:outside-domain", "")]
     seqs = [P.seq_of_rel(r) for r in rels]
+    if inp.get("resave") is not None:
+        # the same Sequence objects were saved once before and then changed through public operations: the earlier save and the
+        # operations are part of the replayable input; what is judged is the second save of what the sequences hold now
+        fd0, path0 = tempfile.mkstemp(suffix=".mid", dir=SCRATCH)
+        os.close(fd0)
+        try:
+            Sequence.sequences_save(seqs, path0)
+        except Exception:
+            pass
+        finally:
+            if os.path.exists(path0):
+                os.unlink(path0)
+        new = []
+        for s_, ops in zip(seqs, inp["resave"]):
+            s2, content = P.seq_after_prelude_obj(s_, ops)
+            new.append((s2, content))
+        seqs = [x for x, _ in new]
+        rels = [c for _, c in new]
+        for r in rels:
+            tr, _ = rel_timed(r)
+            if wf_violations(tr) or any(on >= off for (_, _, on, off, _) in notes_of(tr)) or cross_channel_overlap([r]):
+                return [("~skip:outside-domain", "")]
     fd, path = tempfile.mkstemp(suffix=".mid", dir=SCRATCH)
     os.close(fd)
     try:
@@ -167,6 +189,14 @@ def generate(ctx):
         ctx.case(rels, k > 1 or bool(used))
         ctx.count("sequences:%d" % k)
         ctx.check("save_load", {"rels": rels})
+        if i % 3 == 0:
+            # Sequence objects with a past: saved once, then changed through public operations, then saved again
+            resave = [[rng.choice([("transpose", rng.choice([1, 2, -1])), ("editRel", 1, rng.randint(1, 127)), ("pad", rng.choice([0, 300])),
+                                   ("addRel", pm(KEYSIG, 0, None, key=rng.randrange(15)), 0), ("normalise",), ("editAbs", 1, rng.randint(1, 127)),
+                                   ("addAbs", pm(ON, 0, 500, note=70, vel=90)), ("readAbs",)])
+                       for _ in range(rng.randint(1, 2))] for _ in rels]
+            ctx.count("saved-before-and-changed-since")
+            ctx.check("save_load", {"rels": rels, "resave": resave})
         for r in rels:
             ctx.corr("toMido", P.op_toMido(r))
         # the load half, through the real file, against the model's convert
